@@ -108,9 +108,10 @@ CLAIMS = {
             'Decides two necessary operand-discipline conditions of meaning preservation: every folding branch applies the Python operator its operator string '
             'names, with LEFT.arg OP RIGHT.arg for non-commutative operators, at the operands\' width; every operator whose trailing literal 0 is dropped has 0 as '
             'right-neutral element and is unwrapped when one operand remains; the unwrap list contains no unary operator; in merge_sliceto_slice constant pieces are masked to their width, pieces merge '
-            'only when adjacent and the high constant is shifted by exactly the width of the lower piece (linear arithmetic over bit positions under the loop invariant).',
+            'only when adjacent and the high constant is shifted by exactly the width of the lower piece (linear arithmetic over bit positions under the loop invariant); the recognised rewrites fire only under their '
+            'algebraic side condition (strict mask < 2**shift, rotation by the operand size, c != 0, constant conditions) and slices are re-based exactly.',
             'Not decided (quantifies over values, no honest structural surrogate): soundness of each rewrite\'s side condition for all constants and widths, '
-            'the slice-of-compose and compose-of-slice rewrites, termination of the fixpoint loop.'),
+            'rewrites not in the recognised list, termination of the fixpoint loop.'),
     'C19': ('other',
             'static analysis: def-use audit of every PLY grammar action (token-class positions from the production docstrings) for case folding and number normalisation',
             'In both grammars every token of a class the lexer classifies case-insensitively (REGISTER, SEGMENT, ST, size keywords) is folded before it is used as '
